@@ -459,3 +459,206 @@ func TestVerifC10Driver(t *testing.T) {
 	}
 	time.Sleep(1200 * time.Millisecond)
 }
+
+// ---------------------------------------------------------------------------------------------
+// Discovery level: probe() (internal/driver/discover.go) is the other consumer of the client in
+// the driver; it runs in autoDiscover's ipWorker goroutines, which nothing recovers: a panic on
+// what a host on the scanned subnet sends ends the service.  One JSON line = one scripted host:
+// it greets and negotiates like a proper Reader, answers GetReaderConfig and
+// GetReaderCapabilities as the scenario says, and treats CloseConnection as the scenario says.
+
+type c10pReply struct {
+	// ok: answer with message type Typ and payload PHex (repeated Rep times if Rep > 1), length
+	// field = Claimed if > 0; None: do not answer (the stream stays open); Close: close the stream
+	Typ     int    `json:"typ"`
+	PHex    string `json:"phex"`
+	Rep     int    `json:"rep"`
+	Claimed int64  `json:"claimed"`
+	None    bool   `json:"none"`
+	Close   bool   `json:"close"`
+}
+
+type c10pScenario struct {
+	Name      string    `json:"name"`
+	First     string    `json:"first"`
+	Config    c10pReply `json:"config"`   // answer to GetReaderConfig (type 2)
+	Caps      c10pReply `json:"caps"`     // answer to GetReaderCapabilities (type 1)
+	OnClose   string    `json:"on_close"` // "answer" | "ignore" | "error-status" | "drop"
+	TimeoutMS int       `json:"timeout_ms"`
+}
+
+type c10pResult struct {
+	Name     string `json:"name"`
+	Returned bool   `json:"returned"`
+	Err      string `json:"err"` // "nil" | "error"
+	Device   string `json:"device"`
+	SawGRC   bool   `json:"saw_config_request"`
+	SawCaps  bool   `json:"saw_caps_request"`
+	SawClose bool   `json:"saw_close_request"`
+	Note     string `json:"note"`
+	MS       int64  `json:"ms"`
+}
+
+func (r c10pReply) bytes(ver int, id uint32) []byte {
+	p, _ := hex.DecodeString(r.PHex)
+	if r.Rep > 1 {
+		q := make([]byte, 0, len(p)*r.Rep)
+		for k := 0; k < r.Rep; k++ {
+			q = append(q, p...)
+		}
+		p = q
+	}
+	b := c10dMsg(ver, r.Typ, id, p)
+	if r.Claimed > 0 {
+		binary.BigEndian.PutUint32(b[2:6], uint32(r.Claimed))
+	}
+	return b
+}
+
+func runC10Probe(sc c10pScenario) c10pResult {
+	res := c10pResult{Name: sc.Name}
+	first, err := hex.DecodeString(sc.First)
+	if err != nil {
+		res.Note = "bad first"
+		return res
+	}
+	ln, err := net.Listen("tcp4", "127.0.0.1:0")
+	if err != nil {
+		res.Note = "listen: " + err.Error()
+		return res
+	}
+	defer ln.Close()
+	var mu sync.Mutex
+	hostDone := make(chan struct{})
+	go func() {
+		defer close(hostDone)
+		conn, err := ln.Accept()
+		if err != nil {
+			return
+		}
+		defer conn.Close()
+		_ = conn.SetDeadline(time.Now().Add(15 * time.Second))
+		if _, err := conn.Write(c10dMsg(1, 63, 0, first)); err != nil {
+			return
+		}
+		ver := 1
+		hb := make([]byte, 10)
+		answer := func(r c10pReply, id uint32) bool { // false: stop serving
+			if r.Close {
+				return false
+			}
+			if r.None {
+				return true
+			}
+			_, err := conn.Write(r.bytes(ver, id))
+			return err == nil
+		}
+		for {
+			if _, err := io.ReadFull(conn, hb); err != nil {
+				return
+			}
+			typ := int(binary.BigEndian.Uint16(hb[0:2]) & 0x3ff)
+			ln := binary.BigEndian.Uint32(hb[2:6])
+			id := binary.BigEndian.Uint32(hb[6:10])
+			if ln < 10 {
+				return
+			}
+			if _, err := io.CopyN(io.Discard, conn, int64(ln-10)); err != nil {
+				return
+			}
+			switch typ {
+			case 46:
+				_, _ = conn.Write(c10dMsg(1, 56, id, append([]byte{1 << 5, 2 << 5}, c10dStatus(0)...)))
+			case 47:
+				_, _ = conn.Write(c10dMsg(2, 57, id, c10dStatus(0)))
+				ver = 2
+			case 2:
+				mu.Lock()
+				res.SawGRC = true
+				mu.Unlock()
+				if !answer(sc.Config, id) {
+					return
+				}
+			case 1:
+				mu.Lock()
+				res.SawCaps = true
+				mu.Unlock()
+				if !answer(sc.Caps, id) {
+					return
+				}
+			case 14:
+				mu.Lock()
+				res.SawClose = true
+				mu.Unlock()
+				switch sc.OnClose {
+				case "ignore":
+				case "error-status":
+					_, _ = conn.Write(c10dMsg(ver, 4, id, c10dStatus(100)))
+				case "drop":
+					return
+				default:
+					_, _ = conn.Write(c10dMsg(ver, 4, id, c10dStatus(0)))
+				}
+			}
+		}
+	}()
+
+	timeout := 300 * time.Millisecond
+	if sc.TimeoutMS > 0 {
+		timeout = time.Duration(sc.TimeoutMS) * time.Millisecond
+	}
+	addr := ln.Addr().(*net.TCPAddr)
+	type pr struct {
+		info *discoveryInfo
+		err  error
+	}
+	done := make(chan pr, 1)
+	go func() {
+		info, err := probe("127.0.0.1", fmt.Sprint(addr.Port), timeout)
+		done <- pr{info, err}
+	}()
+	select {
+	case r := <-done:
+		res.Returned = true
+		res.Err = "nil"
+		if r.err != nil {
+			res.Err = "error"
+		}
+		if r.info != nil {
+			res.Device = r.info.deviceName
+		}
+	case <-time.After(30 * time.Second):
+		res.Note = "probe did not return within 30 s"
+	}
+	ln.Close()
+	select {
+	case <-hostDone:
+	case <-time.After(2 * time.Second):
+	}
+	// stray goroutines get a moment to fall over before the scenario is declared survived
+	time.Sleep(10 * time.Millisecond)
+	mu.Lock()
+	defer mu.Unlock()
+	return res
+}
+
+func TestVerifC10Probe(t *testing.T) {
+	lines, w, closeIO := verifIO(t)
+	defer closeIO()
+	for _, l := range lines {
+		var sc c10pScenario
+		if err := json.Unmarshal([]byte(l), &sc); err != nil {
+			fmt.Fprintf(w, "{\"error\":%q}\n", err.Error())
+			w.Flush()
+			continue
+		}
+		fmt.Fprintf(os.Stderr, "C10-RUNNING %s\n", sc.Name)
+		t0 := time.Now()
+		r := runC10Probe(sc)
+		r.MS = time.Since(t0).Milliseconds()
+		b, _ := json.Marshal(r)
+		w.Write(b)
+		w.WriteString("\n")
+		w.Flush()
+	}
+}
